@@ -91,6 +91,10 @@ CHECKS.update({
          "online monitor wrapped around the real client's metadata merge (harness-side): every metadata response, as recorded by the simulated cluster and paired by correlation id, is compared with the client's view right after it was merged, across generated histories of cluster mutations, refreshes and requests; connect hook on the simulated network for dialled addresses; wire inspection after not-leader / unknown-partition answers and failed sends; producer + consumers under finite fault sequences with bounded-recovery oracle",
          "After each metadata response: partitions, leader (node, host, port) per partition, topic error and broker addresses of every covered topic equal the response, no stale partition entry survives, topics not in the response are unchanged, and after a full refresh that lists brokers every broker client for a missing node is gone from client.clients, its connection was asked to close (or its pending connect cancelled) within that reactor event and it never dials again; every later dial of a broker client goes to the address last advertised for its node. After a not-leader/unknown-partition answer (also behind another error in the same response list) or a failed send (also acks=0) a metadata request covering the topic is on the wire before the next request for it, which then goes where that answer says. After any generated finite sequence of leader moves, broker restarts and address changes: sends issued later succeed within max_req_attempts produce attempts, every acknowledged send is in the log, and each consumer's deliveries equal its partition log within 40 virtual seconds. One defect found here was fixed in /repo.",
          "a response never names a leader missing from its own broker list; topics absent from a full refresh are not judged; one bootstrap address stays reachable", "3/C08"),
+ "C16": ("group-e2e", "exploration",
+         "online trace monitor over 1-4 real ConsumerGroup members (own clients) against the simulated group coordinator: every request stamped where the member's client issues it, every reply where it reaches the client, every partition consumer where afkak._group constructs it (recording subclass installed from the harness), every processor call; membership histories with joins, stops, silent kills, evictions, coordinator moves, partition growth, rejected commits and slow processors",
+         "Per member: consumer activity (processor call, Fetch/ListOffsets/OffsetFetch/OffsetCommit) only for partitions of the assignment it was sent for the generation it holds, never between its JoinGroup being written and the next synced generation, never after the event that told it it was evicted; consumers and commits carry that generation and member id; a new consumer's first fetch is the group's committed offset + 1; when JoinGroup is written no processor call is pending, no consumer request is outstanding, no consumer is listed or started, and (unless evicted or the commit was rejected/lost) the coordinator holds the last processed offset of every partition of the previous generation; never two Join/Sync in flight; heartbeats only with a synced generation, never while joining or after eviction, one at a time; after stop(): no JoinGroup/SyncGroup, one LeaveGroup, nothing after the stop Deferred fired; every leader assignment covers each partition of each subscribed topic exactly once among subscribers, balanced for identical subscriptions, and each member creates exactly the consumers it was assigned. Three defects found here were fixed in /repo.",
+         "told-generation = SyncGroup reply delivered; eviction notice = Join/Sync/Heartbeat/OffsetCommit answered 22/25 or a group request timing out; a heartbeat between stop() and the leave is tolerated", "3/C16"),
  "C03": ("consumer-e2e", "fault_enumeration",
          "offline checker over the recorded commit history (every OffsetCommit the coordinator received vs. the processor-completion events before it) plus crash-point enumeration: the process is killed after the k-th client write for every k (sampled above 60 writes), a fresh consumer resumes from OFFSET_COMMITTED and its first delivery is compared with the coordinator's stored offset",
          "Every committed value equals the offset of the last message whose processing had completed when the commit was issued (never behind, never ahead, never re-sent once acknowledged); last_committed_offset is an acknowledged value at every quiescent point; after a kill at any write, the fresh consumer's first delivered offset is stored+1 (the next existing offset) so that at most the un-committed tail is redelivered and nothing is skipped. One defect (processing continues after a processor failure, so a later commit covers the failed message) is listed as known.",
@@ -137,6 +141,7 @@ def main():
             {"name": "client-e2e", "path": "afkverif/engines/world.py", "serves_properties": ["C07", "C08", "C11", "C20"], "kind_free_text": "real KafkaClient stack on SimClock + simnet against simkafka (cluster model speaking the independent codec)"},
             {"name": "producer-e2e", "path": "afkverif/engines/prod.py", "serves_properties": ["C01", "C09", "C19"], "kind_free_text": "real Producer on the real client stack against simkafka with seeded fault plans; unique keys/values make histories unambiguous"},
             {"name": "consumer-e2e", "path": "afkverif/engines/cons.py", "serves_properties": ["C02", "C03", "C13", "C14"], "kind_free_text": "real Consumer on the real client stack against a partition log generated as data in simkafka; processor model with sync/async/chained/failing behaviours"},
+            {"name": "group-e2e", "path": "afkverif/engines/grp.py", "serves_properties": ["C15", "C16", "C17"], "kind_free_text": "1-4 real ConsumerGroup members, each with its own KafkaClient, against simkafka's group coordinator (join barrier, generations, sync, heartbeats, session expiry, leave)"},
             {"name": "codec", "path": "afkverif/refproto.py", "serves_properties": ["C04", "C05", "C12"], "kind_free_text": "independent strict Kafka wire codec used as differential oracle"},
         ],
         "checks": checks,
